@@ -253,7 +253,10 @@ void reb_rotation_to_orbital(struct reb_rotation q, double* Omega, double* inc, 
     double bp = q.iz;
     double cp = q.ix;
     double dp = q.iy;
-    *inc = acos(2.0*(ap*ap+bp*bp) - 1.0);
+    double cosinc = 2.0*(ap*ap+bp*bp) - 1.0;
+    if (cosinc > 1.0) cosinc = 1.0;    // rounding error for planar rotations would give acos(1+eps) = NaN
+    if (cosinc < -1.0) cosinc = -1.0;
+    *inc = acos(cosinc);
     int safe1 =  (fabs(*inc) > MIN_INC);
     int safe2 =  (fabs(*inc - M_PI) > MIN_INC);
 
